@@ -119,6 +119,13 @@ theorem utxo_complete {P : Params} (hP : P.lo ≤ P.hi) (hm : P.mode = .utxo) (h
     s.ret = some true ∧ s.delivered = fullRange P :=
   utxo_complete_thm hP hm hp hr hterm
 
+/-- Unordered streaming is complete: at the end of a maximal run without fault and without cancel the
+delivered heights are a permutation of `[lo..hi]`, no error was returned and the end was signalled. -/
+theorem unordered_complete {P : Params} (hP : P.lo ≤ P.hi) (hm : P.mode = .unordered) (hp : 0 < P.p) {s : State}
+    (hr : ReachableNF P s) (hterm : ∀ l s', Step P s l s' → l = some .cancel) :
+    s.delivered.Perm (fullRange P) ∧ s.ended = true ∧ s.errs = 0 :=
+  unordered_complete_nf_thm hP hm hp hr hterm
+
 /-- Complete or error: a maximal run of ordered streaming (with any faults) that saw no cancel and in which
 `next()` returned no error has delivered exactly `[lo..hi]` and signalled the end. -/
 theorem ordered_complete_or_error {P : Params} (hP : P.lo ≤ P.hi) (hm : P.mode = .ordered) {s : State}
